@@ -2,7 +2,7 @@
 // Child module of crates/utils/src/relative_path.rs (scratch copy; the file is unchanged except
 // that its `use std::path::{Component, Path, PathBuf}` line imports the component-list model).
 use super::{normalize_path, relative_path, resolve_relative_path};
-use verif_models::pathmodel::{Component, Name, Path, CAP};
+use verif_models::pathmodel::{Component, Name, Path, PathBuf, CAP};
 
 fn any_comp() -> Component {
     let k: u8 = kani::any();
@@ -17,8 +17,8 @@ fn any_comp() -> Component {
 
 /// `/` followed by up to `maxc` symbolic components; if `no_climb`, no prefix climbs above the root.
 /// if `file`, the last component is a Normal one (the path names a file).
-fn any_abs_path(maxc: usize, no_climb: bool, file: bool) -> Path {
-    let mut p = Path::new();
+fn any_abs_path(maxc: usize, no_climb: bool, file: bool) -> PathBuf {
+    let mut p = PathBuf::new();
     p.push(Component::RootDir);
     let n: usize = kani::any();
     kani::assume(n <= maxc);
@@ -192,8 +192,8 @@ fn relpath_no_panic_unconstrained_2x2() {
 }
 
 /// resolve_relative_path on an arbitrary relative spelling (what `#import "<path>"` supplies).
-fn any_rel_path(maxc: usize) -> Path {
-    let mut p = Path::new();
+fn any_rel_path(maxc: usize) -> PathBuf {
+    let mut p = PathBuf::new();
     let n: usize = kani::any();
     kani::assume(n <= maxc);
     let mut i = 0;
@@ -214,7 +214,7 @@ macro_rules! resolve_harness {
             let a = any_abs_path($na, true, true);
             let r = any_rel_path($nr);
             // reference: join(dirname(a), r) then lexical normalisation
-            let mut j = Path::new();
+            let mut j = PathBuf::new();
             let mut i = 0;
             while i + 1 < a.len() {
                 j.push(a.get(i));
